@@ -277,6 +277,11 @@ def generate(rng, tier, run, seed=0):
     full = rng.random() < 0.08
     case = {'segs': segs, 'faults': fired, 'seg_term': seg_term, 'eol': eol, 'plan': plan,
             'check_lx': True if full else rng.random() < 0.7, 'bufsize': rng.choice([8192, 8192, 64, 7]), 'full': full}
+    if eol and rng.random() < 0.06:
+        # fixed-width records: blanks pad every line between the terminator and the line break (the next segment then
+        # starts with blanks - a segment-level remark, the envelope findings are the same)
+        case['eol'] = rng.choice([' ', '   ']) + eol
+        case['plan'] = _c01.gen_plan(rng, render(case), 8192, seg_term)
     if rng.random() < 0.08 and len(segs[-1]) > 1 and segs[-1][-1].strip() != '':
         # stream fault: the input ends right after the last segment's data, its terminator never arrives; the segments
         # (and so every envelope finding) are the same
@@ -320,6 +325,8 @@ def execute(case):
         out.fault(f)
     if case.get('noterm'):
         out.fault('stream:last_terminator_missing')
+    if case['eol'].startswith(' '):
+        out.fault('layout:blank-padded-lines')
     if case.get('full'):
         # the same stream through a full validation: the envelope errors must reach the error tree (isa/gs/st lists,
         # HL/LX as segment errors); the body segments of a skeleton are not map conformant, which is irrelevant here
